@@ -7,6 +7,53 @@ VERIF = os.path.dirname(os.path.dirname(os.path.abspath(__file__)))
 PY = '/venv/bin/python'
 
 CHECKS = {
+    'C01': dict(
+        level='other',
+        text='Decides the structural necessary conditions of correct decoding for every template and bit pattern: the walk dispatches each '
+             'descriptor class and refuses unknown ones; every abstract primitive is implemented and dispatched on the compression flag; '
+             'each decoder primitive appends one descriptor and one value per subset on every path; the operator -> register table of '
+             'process_operator_descriptor, folded over operands 0..255, equals the FM-94 table; the width/scale/reference handed to the '
+             'primitives depend on exactly the registers FM-94 names; the appended numeric value normalises to (raw + reference) / scale; '
+             'the missing rule holds for widths 0..64 and at both compressed sites; labels follow the documented table; class filters '
+             '(221, 204, 222/class 33) folded over X = 0..63.',
+        note='Path-sensitive constant propagation over the syntax tree; no module is imported. Not decided: that the bits read are the '
+             'right bits of a given message, Table B contents, float rounding. bitstring is the trusted base.',
+        technique='static analysis: path-sensitive constant propagation with events (PathEval) over the walk and the decoder primitives; '
+                  'finite-domain folding of operands and classes; expression-DAG normal forms',
+        ref='3 C01'),
+    'C02': dict(
+        level='other',
+        text='Decides that the encoder and the decoder agree on the field sequence (kind, width provenance, loop structure) of all ten '
+             'primitive x mode pairs, on the F/X/Y packing of the descriptor list (folded over the whole id domain in the thorough tier) '
+             'and on the specially handled section parameter types; that the three numeric encode sites compute int(round(v*scale)) - '
+             'reference; that a missing value is written as all ones of exactly the width written; that padding is zero bits and strings '
+             'are space padded; and that each encoder primitive consumes one value index and appends one descriptor per path.',
+        note='Byte identity with an independent encoder is a runtime fact and is not decided. bitstring is the trusted base.',
+        technique='static analysis: sibling cross-check of encoder/decoder I/O skeletons extracted by path-sensitive constant propagation; '
+                  'expression-DAG normal forms; finite-domain folding',
+        ref='3 C02'),
+    'C04': dict(
+        level='other',
+        text='Decides section framing by folding Encoder.process_section / Decoder.process_section over every data length modulo 16 x '
+             'editions 2..4 x start offsets x declared/recomputed lengths against a position-only model of the bit reader/writer: padded '
+             'size, zero padding, minimality, back-patch value/width/offset, zero-fill of longer and refusal of shorter declared sections, '
+             'exact extent consumed by the decoder; span accounting of Decoder.process with an absent optional section; optional-section '
+             'configuration; a lint of the JSON section layouts.',
+        note='The produced bytes themselves are bitstring\'s (C19). Encoder.process\'s total-length back-patch is checked structurally '
+             '(it needs JSON input), not folded.',
+        technique='static analysis: path-sensitive constant propagation of the section routines over a finite congruence domain; layout lint',
+        ref='3 C04'),
+    'C19': dict(
+        level='other',
+        text='Decides, for every width 1..64, that BitStringBitReader and BitStringBitWriter use the same layout per type (unsigned, '
+             'sign-magnitude with sign bit first and the same polarity, bool, bin, bytes = nbits // 8 in both generic dispatchers), that '
+             'set_uint replaces exactly nbits bits at the given position, that read_uint_or_none reports all ones as missing only above one '
+             'bit, that bytes are space padded / truncated and latin-1 encoded, that skip writes zeros, and that the raw stream is read only '
+             'through the error-converting wrapper.',
+        note='bitstring is the trusted base: the rules read the format strings / Bits objects the code hands to it; range refusal and '
+             'read-past-end behaviour are bitstring\'s. Runtime round-trip equality is not decided.',
+        technique='static analysis: constant folding of the bit-level routines for widths 1..64 against a recording model of the stream object',
+        ref='3 C19'),
     'C06': dict(
         level='other',
         text='Decides, for every template and every subset history, the structural necessary condition of subset '
